@@ -97,6 +97,6 @@ def run(repo, res, tier):
     n = sink_rule(repo, res, ty)
     from . import sk_bash
     sk_bash.quote_rule(repo, res, tier)
-    res.floor("ENC", res.count("ENC"), 4)
+    res.floor("ENC", res.count("ENC"), 2)
     res.floor("SINK-holes", n, 150)
-    res.floor("SK-QUOTE", res.count("SK-QUOTE"), 25)
+    res.floor("SK-QUOTE", res.count("SK-QUOTE"), 15)
